@@ -34,14 +34,22 @@ def check(report, tier, seed):
         open(bad_yo, "wb").write(rng.choice([b"0x000: zz | x\n", b"", b"0x000: 30f4 | short\n", b"\xff\xfe | \n"]))
         invalid_utf8_yo = os.path.join(d, "latin.yo")
         open(invalid_utf8_yo, "wb").write(b"0x000: 00                   | caf\xe9\n")
+        # names around the '.yo' rule, all with loadable contents: the rule is "ends in .yo", case-sensitively
+        named = {}
+        for nm in ("PROG.YO", "prog.Yo", "prog.yO", ".yo", "progyo", "prog.yo.bak", "prog.yoo", "prog.y", "prog.yo ", "é.yo", "prog..yo"):
+            named[nm] = os.path.join(d, nm)
+            open(named[nm], "w").write(gen.yo_line(0, b"\x30\xf4") + "\n")
         cases = []
         for k in range(n):
             opts = [o for o in OPTIONS if rng.random() < (0.12 if o in ("-h", "--help", "--version", "--bogus", "-Z") else 0.25)]
             rng.shuffle(opts)
             hk = rng.choice(["halting", "halting", "forever", "errstat", "aborts", "rejected", "missing"])
             hcl_path = files.get(hk + ".hcl", os.path.join(d, "nonexistent.hcl"))
-            yk = rng.choice(["good", "good", "good", "missing", "wrongext", "bad", "latin"])
-            yo_path = {"good": good_yo, "missing": os.path.join(d, "nothere.yo"), "wrongext": wrong_ext, "bad": bad_yo, "latin": invalid_utf8_yo}[yk]
+            yk = rng.choice(["good", "good", "good", "missing", "wrongext", "bad", "latin", "named", "named"])
+            if yk == "named":
+                yo_path = named[rng.choice(sorted(named))]
+            else:
+                yo_path = {"good": good_yo, "missing": os.path.join(d, "nothere.yo"), "wrongext": wrong_ext, "bad": bad_yo, "latin": invalid_utf8_yo}[yk]
             nfree = rng.choice([0, 1, 2, 2, 3, 3, 3, 4])
             t = rng.choice(TIMEOUTS)
             if hk == "forever" and t in ("9999", "4294967295", None):
